@@ -271,6 +271,10 @@ def insert_positions(x, forms):
     never more.  `g := literal` for a constant g is an error only once g is defined (before that
     it would DECLARE g, langenvs.tex:323-326): positions after g's definition."""
     n = len(forms)
+    if "try {" in x["bad_form"]:
+        # a REJECTED form that contains a try/catch (a loop, an if, a function) followed immediately by a top-level
+        # `for` loop that contains a try/catch makes the loop segfault (probe `try-loop-after-rejected-try`): not entered
+        return []
     if "Union(" in x["bad_form"]:
         # an erroneous form holding a Union literal can kill the loop while the error is reported (probe
         # `union-literal-error-in-if-condition`): not entered; the batch side (C06) still plants these
@@ -540,6 +544,16 @@ PROBES = [
                     ("g1: MI := mi(3);\n", "", False),
                     ("g1 := (if (([f1 == g4999]@Union(f0: MI, f1: MI, f2: MI)) case f0) then (([f1 == g1]@Union(f0: MI, f1: MI, f2: MI)).f0) else mi(5));\n", "", True),
                     ("stdout << g1 << newline;\n", "3\n", False)]},
+    {"name": "try-loop-after-rejected-try", "key": "C13 gloop:try-inside-toplevel-loop:crash", "what": "mixed", "mode": "quiet",
+     "steps": [('#include "aldor"\n', "", False), ('#include "aldorio"\n', "", False), ("import from List(String);\n", "", False),
+               ("import from Array(Boolean);\n", "", False), ("define Ex0Type: Category == with;\n", "", False),
+               ("f4(): Array(Boolean) == ([false, true]@Array(Boolean));\n", "", False),
+               ('for l0: String in (["a", "b"]@List(String)) repeat {\n    stdout << f4(true) << newline;\n    try {\n        true\n'
+                '    } catch E in {\n        E has Ex0Type => {\n            true\n        };\n        true => throw E;\n        never;\n    };\n};\n',
+                "", True),
+               ('for l0: String in (["a", "b"]@List(String)) repeat {\n    stdout << f4() << newline;\n    try {\n        true\n'
+                '    } catch E in {\n        E has Ex0Type => {\n            true\n        };\n        true => throw E;\n        never;\n    };\n};\n',
+                "[F,T]\n[F,T]\n", False)]},
     {"name": "verbose-if-else", "key": "C13 gloop:verbose-mode:toplevel-if-else-with-branches-of-different-types-rejected",
      "what": "good", "mode": "verbose",
      "steps": _H + AFTER_HEADER["verbose"] + [("g0: MachineInteger := 3;\n", "", False),
@@ -572,6 +586,9 @@ def class_key(cls, steps, out):
     if "Have determined 0 possible types for the expression" in out and "verbose is on." in out and \
             cls in ("accepted-form-rejected-by-loop", "good-form-rejected-after-erroneous-form"):
         return "C13 gloop:verbose-mode:toplevel-if-else-with-branches-of-different-types-rejected"
+    if cls == "loop-crashed" and any(s.startswith(("for ", "while ", "if ")) and "try {" in s for s, _, b in steps):
+        # the family of the probe `try-loop-after-rejected-try`: one key by site / shape, whatever the loop's text
+        return "C13 gloop:try-inside-toplevel-loop:crash"
     if any(s.startswith("try {") for s, _, b in steps if not b) and cls in ("loop-crashed", "session-differs-from-batch"):
         return PROBES[2]["key"]
     if cls == "loop-crashed" and "(Error)" in out and \
